@@ -353,12 +353,14 @@ def missed_key(cmd, hints, cats):
 
 # ------------------------------------------------------------------ generation
 
-FILE_NAMES = ["a", "b.txt", "c d", ".hid", "m.c", "x.tmp", "skip1", "n 1.tmp", "k", "zz", "a*b", "b\\c"]
-DIR_NAMES = ["sub", "sub dir", "z.d", "inc", "zz top", "skip2", "o.tmp", ".cache"]
+FILE_NAMES = ["a", "b.txt", "c d", ".hid", "m.c", "x.tmp", "skip1", "n 1.tmp", "k", "zz", "a*b", "b\\c", ".x.tmp", ".hidden", "..two", ".main.c.swp", "bak~"]
+DIR_NAMES = ["sub", "sub dir", "z.d", "inc", "zz top", "skip2", "o.tmp", ".cache", ".d.tmp"]
 # plain names, globs, backslash escapes without any glob character ("\\.hid" hides ".hid", "a\\*b" hides the name "a*b",
 # "b\\\\c" hides the name with one backslash), bracket expressions
 PATTERN_SETS = [["*.tmp"], ["*.tmp", "skip?"], ["x.*", "n ?.tmp", "skip1"], [".*", "*.tmp"],
-                ["\\.hid", "\\.cache"], ["a\\*b", "k", "*.tmp"], ["b\\\\c", "x\\.tmp"], ["skip[0-9]", "[!a-y]*"], ["[ab]", "\\.cache", "o.tmp"]]
+                ["\\.hid", "\\.cache"], ["a\\*b", "k", "*.tmp"], ["b\\\\c", "x\\.tmp"], ["skip[0-9]", "[!a-y]*"], ["[ab]", "\\.cache", "o.tmp"],
+                # wildcards that have to match a LEADING period (fnmatch flags are 0: no FNM_PERIOD)
+                ["*.swp", "*~"], ["?x*", "*.tmp"], ["[.]*"], ["*two", "?hid*"], ["*"]]
 
 def gen_spec(rng, depth, maxdepth, fan, link_targets):
     """a directory spec; the entry that sorts last is usually a directory so that edits land beneath a last child"""
@@ -946,6 +948,21 @@ def corpus():
         dict(labels=["add-ancestor-link (sub/deep/self -> .)"], ops=[dict(op="add", path="tree/sub/deep/self", spec=dict(k="l", to="."), dir_t=T0 + 975 * STEP_NS)]),
         dict(labels=["rm-ancestor-link (sub/up), directory mtime restored"], ops=[dict(op="rm", path="tree/sub/up", dir="keep")]),
         dict(labels=["content"], ops=[dict(op="write", path="tree/sub/deep/c", data="cc", t=T0 + 976 * STEP_NS)])]))
+    # seeded C12-9: a wildcard matches a leading period of a name (fnmatch flags 0), at depth 0 and deeper
+    out.append(dict(name="leading-period-names", family="core", pats=["*.swp", "*~", "?x*", "*two"],
+                    init=d(("main.c", f("m")), (".main.c.swp", f("s")), (".x.tmp", f("t")), ("sub", d(("..two", f("2")), (".b.swp", f("s")), ("b", f("b"))))), steps=[
+        dict(labels=["excluded-content (.main.c.swp)"], ops=[dict(op="write", path="tree/.main.c.swp", data="ss", t=T0 + 980 * STEP_NS)]),
+        dict(labels=["excluded-content (.x.tmp, hidden by ?x*)"], ops=[dict(op="write", path="tree/.x.tmp", data="tt", t=T0 + 981 * STEP_NS)]),
+        dict(labels=["excluded-content (sub/..two)"], ops=[dict(op="write", path="tree/sub/..two", data="22", t=T0 + 982 * STEP_NS)]),
+        dict(labels=["excluded-rm (sub/.b.swp), directory mtime restored"], ops=[dict(op="rm", path="tree/sub/.b.swp", dir="keep")]),
+        dict(labels=["excluded-add (.new.swp)"], ops=[dict(op="add", path="tree/.new.swp", spec=f(), dir_t=T0 + 983 * STEP_NS)]),
+        dict(labels=["excluded-rm (.new.swp)"], ops=[dict(op="rm", path="tree/.new.swp", dir_t=T0 + 984 * STEP_NS)]),
+        dict(labels=["content (main.c)"], ops=[dict(op="write", path="tree/main.c", data="mm", t=T0 + 985 * STEP_NS)])]))
+    out.append(dict(name="leading-period-star", family="core", pats=["[.]*"],
+                    init=d(("a", f()), (".hidden", f("h")), ("sub", d((".cache", d(("obj", f("o")))), ("k", f("k"))))), steps=[
+        dict(labels=["excluded-content (.hidden)"], ops=[dict(op="write", path="tree/.hidden", data="hh", t=T0 + 986 * STEP_NS)]),
+        dict(labels=["excluded-content (sub/.cache/obj)"], ops=[dict(op="write", path="tree/sub/.cache/obj", data="oo", t=T0 + 987 * STEP_NS)]),
+        dict(labels=["content (sub/k)"], ops=[dict(op="write", path="tree/sub/k", data="kk", t=T0 + 988 * STEP_NS)])]))
     # D1 (known): chmod only
     out.append(dict(name="chmod-only", family="mode", pats=[], init=d(("a.txt", f()), ("sub", d(("b", f())))), steps=[
         dict(labels=["chmod"], ops=[dict(op="chmod", path="tree/sub/b", mode=0o600)]),
